@@ -1,7 +1,7 @@
 import Props.C11
 import Props.Driver
 /-!
-# C11, second clause at run level: marking candidates withdrawn = deleting them (wigm, wigm-prf, wigm-prf-batch, cfer, cfer-batch, scotland)
+# C11, second clause at run level: marking candidates withdrawn = deleting them (wigm, wigm-prf, wigm-prf-batch, cfer, cfer-batch, scotland, mpls)
 
 For every case inside `caseOK` (the reader has already removed withdrawn candidates from the rankings: `Props/C11.lean`,
 `Props/C15.lean`), every fixed-point precision and the three wigm rule names in every configuration: the state returned for the
@@ -14,7 +14,10 @@ driver: selectors are blind to withdrawn candidates, vote and pending updates ke
 addressed to ids of hopeful candidates.  The same for cfer / cfer-batch (`cfer_withdrawn_is_absent`, `DropWCfer.lean`).
 Scotland (`scotland_withdrawn_is_absent`, `DropWScot.lean`): the tie-break by prior stages reads the saved stages, which the
 deletion edits too; the extra invariant is that every saved stage lists the current candidates with the same ones withdrawn,
-so the look-back never reads a withdrawn entry.  mpls, the Meek family and QPQ: compared only (re-runs on the real code).
+so the look-back never reads a withdrawn entry.  Minneapolis (`mpls_withdrawn_is_absent`, `DropWMpls.lean`, profiles without
+undeclared write-ins): its reporting surplus is summed over all candidates, withdrawn ones included; their terms are zero because
+a withdrawn candidate holds no votes and the quota is positive (facts the lower-half proof of C02 already carries along).
+So all seven Gregory rule names are covered.  The Meek family and QPQ: compared only (re-runs on the real code).
 -/
 namespace Droop.C11
 open Droop
@@ -156,6 +159,47 @@ theorem scotland_withdrawn_is_absent (p : Nat) (c : Case) (hr : c.rule = "scotla
     show 0 < (pdiv _ _ + 1) * pow10 p
     positivity
   exact scot_dropW (fixedArith p) (fixed_lawful p) rfl _ t t' hst rfl hrun hrun'
+
+theorem fixed_lt_exact (p : Nat) (a b : Int) : (fixedArith p).lt a b = true ↔ a < b := by
+  show (decide (intCmp a b < 0)) = true ↔ a < b
+  unfold intCmp
+  by_cases h1 : a < b
+  · simp [h1]
+  · by_cases h2 : a = b
+    · subst h2; simp
+    · have : ¬ (a == b) = true := by simpa using h2
+      simp [h1, this]
+
+/-- **withdrawn means absent, Minneapolis** (profiles without undeclared write-ins) -/
+theorem mpls_withdrawn_is_absent (p : Nat) (c : Case) (hr : c.rule = "mpls") (hok : caseOK c = true)
+    (hnu : ∀ k ∈ c.cands, k.2.2.2 = false) :
+    ∃ t t', runRuleSt (fixedArith p) c = some t ∧ runRuleSt (fixedArith p) (deleteWithdrawn c) = some t'
+      ∧ t' = Droop.dropW t := by
+  have hk := caseOK_iff c hok
+  have hk' := caseOK_deleteWithdrawn c hk
+  have hok' := caseOK_bool_of _ hk'
+  have hnu' : ∀ k ∈ (deleteWithdrawn c).cands, k.2.2.2 = false := fun k hk => hnu k (List.mem_filter.1 hk).1
+  obtain ⟨t, ⟨hrun, _, _⟩, _⟩ := Driver.mpls p c hr hok hnu
+  obtain ⟨t', ⟨hrun', _, _⟩, _⟩ := Driver.mpls p (deleteWithdrawn c) hr hok' hnu'
+  refine ⟨t, t', hrun, hrun', ?_⟩
+  have hm : methodOf c.rule = .wigm := Driver.methodOf_gregory (by rw [hr]; simp)
+  have hI := initState_init (fixedArith p) (fixed_lawful p) c hm hk
+  have he : runRuleSt (fixedArith p) c = mplsCount (fixedArith p) (initState (fixedArith p) c) := by
+    simp [runRuleSt, runRuleSt', hr]
+  have he' : runRuleSt (fixedArith p) (deleteWithdrawn c) = mplsCount (fixedArith p) (initState (fixedArith p) (deleteWithdrawn c)) := by
+    simp [runRuleSt, runRuleSt', deleteWithdrawn, hr]
+  rw [he] at hrun
+  rw [he', initState_deleteWithdrawn] at hrun'
+  have hS := pow10_pos p
+  have hG := C01.mpls_start p _ hI (initState_fresh _ c) (initState_enough _ c hk) rfl
+  have hnn : 0 ≤ pdiv ((initState (fixedArith p) c).nballots : Int) (((initState (fixedArith p) c).seats : Int) + 1) :=
+    pdiv_nonneg _ _ (by positivity) (by positivity)
+  have hq1 : pow10 p ≤ (fixedArith p).ofInt (pdiv (initState (fixedArith p) c).nballots ((initState (fixedArith p) c).seats + 1) + 1) := by
+    show pow10 p ≤ (pdiv ((initState (fixedArith p) c).nballots : Int) (((initState (fixedArith p) c).seats : Int) + 1) + 1) * pow10 p
+    nlinarith
+  have hL := C02.start_of_init p _ _ hI hq1 (initState_noW _ c hk)
+  exact mpls_dropW (fixedArith p) (fixed_lawful p) (fixed_lt_exact p) rfl 2 (by norm_num) (fixed_rewLower_mulDiv p) _ t t'
+    hG (initState_noUnd _ c hnu) hL hrun hrun'
 
 /-- what the driver prints for the two runs differs only by the withdrawn candidates' rows -/
 theorem finish_dropW {α : Type} [CommRing α] [LinearOrder α] [IsStrictOrderedRing α] (A : Arith α) (t : St α) :
